@@ -690,13 +690,14 @@ def sim_idle_stream(ctx, n):
                     latest[e[2]] = e[6]
                     use_items.append(glist(["(%s, %s)" % (gz(a), gz(t)) for _, a, t in e[6]]))
                     use_where.append([wi, li])
-                elif e[0] == "step" and e[4] == [] and latest:
+                elif e[0] == "step" and not any(x[2] == "RUNNING" for x in e[4]) and latest:
                     for wn, u in sorted(latest.items()):
                         idle_items.append(glist(["(%s, %s)" % (gz(a), gz(t)) for _, a, t in u]))
                         idle_where.append([wi, li, wn])
                     stats["idle_instants"] += 1
+            state = {x[0]: x[1] for x in r.get("final", [])}
             for wn, u, placed in r.get("idle", []):
-                if not placed:
+                if not any(state.get(t) == "RUNNING" for t in placed):
                     idle_items.append(glist(["(%s, %s)" % (gz(a), gz(t)) for _, a, t in u]))
                     idle_where.append([wi, "end", wn])
         except (IndexError, KeyError, TypeError, ValueError) as e:
@@ -706,11 +707,11 @@ def sim_idle_stream(ctx, n):
     ctx.cov["input_distribution"]["sim_idle"] = stats
     ctx.rules.append("S-sim-idle: whole simulations (EDF/FIFO/LSF, generated clusters x DAG workloads x release patterns x flags) "
                      "through the real Simulator; monitor check_usage after every place/remove on the live cluster and check_idle "
-                     "(allocated = 0 for every resource of every worker) at every clock step at which no task is placed and at the end")
+                     "(allocated = 0 for every resource of every worker) at every clock step at which no placed task is RUNNING and at the end")
     ctx.cov["distinct_nontrivial"] += stats["idle_instants"] and stats["ended"]
     for name, items, where, fn, what in (
             ("M-sim-usage", use_items, use_where, "check_usage", "a live worker reports allocated < 0 or allocated > total during a simulation"),
-            ("M-sim-idle", idle_items, idle_where, "check_idle", "no task is placed but a live worker is not back at full capacity (resources leaked by the simulation)")):
+            ("M-sim-idle", idle_items, idle_where, "check_idle", "no task is running but a live worker is not back at full capacity (resources leaked by the simulation)")):
         if not items:
             continue
         bad = ctx.monitor_stream(name, HDR, "list (Z * Z)", fn, items, shard=2000)
